@@ -128,6 +128,24 @@ def check(model: Model, run: Run) -> None:
                 else:
                     run.check(ok, fi.qualname, 'Notify%s in %s' % (pair, prefix), fi.loc(call), 'errors detected in %s must use code %s (RFC 4271 6)' % (prefix, sorted(allowed)))
                 break
+    # Notify(*error) in validate_open forwards the tuples returned by Negotiated.validate / built in _negotiate:
+    # they are OPEN message errors
+    for qn in ('exabgp.bgp.message.open.capability.negotiated.Negotiated.validate', 'exabgp.bgp.message.open.capability.negotiated.Negotiated._negotiate'):
+        f = model.func(qn)
+        run.analysed(f)
+        for n in walk_no_nested(f.node):
+            tup = None
+            if isinstance(n, ast.Return) and isinstance(n.value, ast.Tuple):
+                tup = n.value
+            if isinstance(n, ast.Assign) and isinstance(n.value, ast.Tuple) and dotted(n.targets[0]) == 'self.multisession':
+                tup = n.value
+            if tup is None or len(tup.elts) < 2:
+                continue
+            c = folder.fold(tup.elts[0], f.module, f.cls)
+            sc = folder.fold(tup.elts[1], f.module, f.cls)
+            if not (isinstance(c, int) and isinstance(sc, int)):
+                continue
+            run.check(c == 2 and (c, sc) in keys, qn, 'OPEN refusal tuple (%s, %s)' % (c, sc), f.loc(n), 'a fault found while validating the peer OPEN is an OPEN Message Error (2/x), got %s/%s' % (c, sc))
     # fixed places
     ro = model.func(PROTO + '.read_open')
     rk = model.func(PROTO + '.read_keepalive')
@@ -152,6 +170,27 @@ def check(model: Model, run: Run) -> None:
     if esc == {'ValueError'} and guarded:
         esc = set()
     run.check(not esc, um.qualname, 'explicit escapes: %s' % sorted(esc), um.loc(), 'a malformed NOTIFICATION must not raise (it would be answered with a NOTIFICATION, RFC 4271 6.5)')
+    # implicit raisers (decode/encode without errors=, int(str)) on the decode path of a NOTIFICATION
+    from .common import CallGraph, implicit_raise_sites
+
+    cgn = CallGraph(model, cha=False)
+    reach = cgn.reachable([um.qualname])
+    n_scanned = 0
+    for q in sorted(reach):
+        f = model.funcs[q]
+        if not f.module.rel.startswith('exabgp/bgp/message/notification.py'):
+            continue
+        n_scanned += 1
+        for call, label in implicit_raise_sites(model, f):
+            run.violation(
+                q,
+                'unguarded %s can raise %s while decoding a NOTIFICATION' % (norm(call)[:60], label),
+                f.loc(call),
+                'peer-chosen bytes reach this call on the path Notification.unpack_message -> %s; the %s it raises is '
+                'turned into Notify(1, 0) by read_message and sent: a received NOTIFICATION is answered with a NOTIFICATION' % (short(q), label),
+                [' -> '.join(short(x) for x in cgn.path(reach, q))],
+            )
+    run.check(n_scanned >= 2, um.qualname, 'implicit-raiser scan covered %d functions of the NOTIFICATION decode path' % n_scanned, um.loc(), 'scan must cover unpack_message and the constructor')
     runf = model.func(PEER + '._run')
     run.analysed(runf)
     arm = None
